@@ -5,6 +5,7 @@ package main
 import (
 	"fmt"
 	"io"
+	"net"
 	"runtime"
 	"strconv"
 	"strings"
@@ -46,6 +47,23 @@ func quiesce() int {
 }
 
 func oneConn(rig *Rig, closer string, seed uint64) error {
+	if closer == "refused" {
+		// a channel name the server does not serve: the logical connection is refused, the application sees its
+		// connection closed without data
+		c, err := rig.Dial("nochan")
+		if err != nil {
+			return err
+		}
+		defer c.Close()
+		_ = c.SetReadDeadline(time.Now().Add(8 * time.Second))
+		buf := make([]byte, 16)
+		if n, err := c.Read(buf); err == nil || n > 0 {
+			return fmt.Errorf("a refused channel delivered %d bytes (err=%v)", n, err)
+		} else if ne, ok := err.(net.Error); ok && ne.Timeout() {
+			return fmt.Errorf("a refused logical connection was not closed within 8 s")
+		}
+		return nil
+	}
 	c, err := rig.Dial("echo")
 	if err != nil {
 		return err
@@ -86,6 +104,15 @@ func (lifeComp) Exec(op string) (string, string, string, bool) {
 		return "fail:rig", err.Error(), "fail", false
 	}
 	defer rig.Close()
+	if closer == "refused" {
+		// the session must exist first (a served connection), then the client gets a listener for an unserved name
+		if err := oneConn(rig, "app", 99); err != nil {
+			return "fail:conn", err.Error(), "fail", false
+		}
+		if _, err := rig.AddAppListener("nochan"); err != nil {
+			return "fail:rig", err.Error(), "fail", false
+		}
+	}
 	// warm up: the first connection creates the session and its long-lived goroutines
 	for i := 0; i < 3; i++ {
 		if err := oneConn(rig, closer, uint64(i)); err != nil {
@@ -134,6 +161,8 @@ func (lifeComp) Gen(r *Rand, tier string, emit func(string)) {
 		emit(c + " 25 app none")
 		emit(c + " 25 target none")
 	}
+	emit("tcp 25 refused none")
+	emit("ws 25 refused none")
 	emit("tcp 10 app cut")
 	emit("tcptls 10 app cut")
 	emit("tcp 10 app garbage")
